@@ -226,6 +226,23 @@ def build_case(case):
         m2.add_instantiated_arcs([m.arcs[a] for a in case["inst_arcs"]])
         m2.dates = m.dates
         m = m2
+    if case.get("builder") == "scenario":
+        # a scenario run from a saved model: ANOTHER river network is built and saved; its saved configuration is then loaded
+        # with the nodes and arcs of the network under test given as overrides (Model.load(..., overrides={"nodes", "arcs"}))
+        import os
+        import shutil
+        import tempfile
+        import yaml
+        base = NG.build(case["base_cfg"], "float")
+        with tempfile.TemporaryDirectory(prefix="c16a_") as da, tempfile.TemporaryDirectory(prefix="c16b_") as db:
+            base.save(da)
+            m.save(db)
+            with open(os.path.join(db, "config.yml")) as f:
+                yb = yaml.safe_load(f)
+            shutil.copy(os.path.join(da, "config.yml"), os.path.join(db, "saved_elsewhere.yml"))
+            m3 = Model()
+            m3.load(db, config_name="saved_elsewhere.yml", overrides={"nodes": yb["nodes"], "arcs": yb["arcs"], "dates": yb["dates"]})
+        m = m3
     return m
 
 
@@ -414,6 +431,8 @@ def divergent_cases():
 def payload(case):
     p = {"config": NG.cfg_json(case["cfg"]), "case_kind": case["kind"], "orchestration": case.get("orchestration"),
          "builder": case.get("builder", "dicts")}
+    if case.get("builder") == "scenario":
+        p["base_config"] = NG.cfg_json(case["base_cfg"])
     if case.get("builder") == "instantiated":
         p.update({"inst_nodes": case["inst_nodes"], "inst_arcs": case["inst_arcs"]})
     return p
@@ -498,6 +517,16 @@ def run(rep, thorough):
                                    f"{orch}: {info.get('calls_per_step')} protocol calls per timestep as listed, river order {info.get('river_order')}")
     for i in range(nnet):
         case = gen_rivernet(r, ndates=r.choice([2, 3]))
+        if i % 4 == 3:
+            # the network is not built in code but loaded as a scenario on top of a saved model of another network (a
+            # stream of its own for the other network)
+            rb = random.Random(f"c16-scenario-base-{C.seed()}-{i}")
+            for _ in range(12):
+                base = gen_rivernet(rb, ndates=len(case["cfg"]["dates"]))
+                if base["cfg"]["polset"] == case["cfg"]["polset"]:
+                    case["builder"], case["base_cfg"] = "scenario", base["cfg"]
+                    stats["loaded_as_scenario_over_a_saved_model"] = stats.get("loaded_as_scenario_over_a_saved_model", 0) + 1
+                    break
         info = evaluate(rep, case, stats, seen)
         stats["river_networks"] += 1
         outs = Counter(a["out_port"] for a in case["cfg"]["arcs"] if not a["in_port"].startswith("catch"))
@@ -526,6 +555,8 @@ def replay(rep, p):
     """re-run the check on a recorded payload; reports again if it still fails; returns True when it failed"""
     case = {"cfg": NG.cfg_from_json(p["config"]), "kind": p.get("case_kind", "netgen"), "orchestration": p.get("orchestration"),
             "builder": p.get("builder", "dicts"), "inst_nodes": p.get("inst_nodes"), "inst_arcs": p.get("inst_arcs")}
+    if p.get("base_config"):
+        case["base_cfg"] = NG.cfg_from_json(p["base_config"])
     stats = {"timesteps": 0, "run_errors": 0, "divergent_order_failures": 0, "violations": 0}
     evaluate(rep, case, stats, set())
     return stats["violations"] > 0
